@@ -48,6 +48,14 @@ UNIT = Unit(
            loop_fn=lambda k, header, kw: (lambda mt: (f"invariant __mi{mt.group(1)} <= f_params.len(), __mo{mt.group(1)}@.len() == __mi{mt.group(1)}, "
                                                       f"forall|j: int| 0 <= j < __mi{mt.group(1)} ==> #[trigger] __mo{mt.group(1)}@[j] == f_params@[j].1,\n decreases f_params.len() - __mi{mt.group(1)},") if mt else None)(
                                                       re.search(r"while\s+__mi(\d+)\s*<\s*f_params\.len\(\)", header))),
+        Fn(file=L, name="transform_expr", rename="lift_constr_get", ret="r", rules=["attrs", ("strip", "tast::")],
+           cut_from=re.compile(r"MonoExpr::EConstrGet \{\s*expr,\s*constructor,\s*field_index,\s*ty,\s*\} => \{"), cut_inside=True, cut_before="@block-end", cut_tail="",
+           sig="fn lift_constr_get(state: &mut State, scope: &mut Scope, expr: Box<MonoExpr>, constructor: Constructor, field_index: usize, ty: Ty) -> LiftExpr",
+           rewrites=[VC, ("transform_expr(state, scope, *expr)", "transform_expr(state, scope, unbox(expr))", "*"),
+                     (re.compile(r"(get_(?:struct|enum)_field_ty\((?:[^()]|\([^()]*\))*\))\.unwrap_or\(ty\)"), r"(match \1 { Some(__u) => __u, None => ty })", "*")],
+           obligation="a field taken out of a struct value or a variant payload carries the field's type as the lifting re-declared it (the closure's environment struct when a "
+                      "closure was stored there), at the same constructor and the same index",
+           contract="ensures r matches LiftExpr::EConstrGet { expr: _, constructor: c, field_index: i, ty: t } && c == constructor && i == field_index && constr_get_ty_ok(final(state), constructor, field_index, ty, t),"),
         Fn(file=L, name="transform_expr", rename="lift_var", ret="r", rules=["attrs", ("strip", "tast::")],
            cut_from="MonoExpr::EVar { name, ty } => {", cut_inside=True, cut_before="@block-end", cut_tail="",
            sig="fn lift_var(state: &mut State, scope: &mut Scope, name: String, ty: Ty) -> LiftExpr",
